@@ -6,8 +6,10 @@ import (
 	"go/constant"
 	"go/token"
 	"go/types"
+	"sort"
 	"strconv"
 	"strings"
+	"sync"
 
 	"golang.org/x/tools/go/ssa"
 )
@@ -222,17 +224,13 @@ func (x *Exec) localByName(env *SpecEnv, fr *Frame, name string) (specVal, bool)
 			base, want = name[:i], k
 		}
 	}
-	n := 0
+	// same-named locals are numbered in SOURCE order (name, name__2, ...), not in the order of the
+	// basic blocks that happen to hold their allocation: block order changes when an enclosing
+	// statement is restructured (an `if` around a loop added or removed), source order does not.
+	// Hidden variables (rangeindex) carry no position: the earliest position among their uses counts.
 	var found *ssa.Alloc
-	for _, b := range fr.fn.Blocks {
-		for _, ins := range b.Instrs {
-			if a, ok := ins.(*ssa.Alloc); ok && a.Comment == base {
-				n++
-				if n == want {
-					found = a
-				}
-			}
-		}
+	if cands := sameNamedLocals(fr.fn, base); want >= 1 && want <= len(cands) {
+		found = cands[want-1]
 	}
 	if found == nil {
 		for i, p := range fr.fn.Params {
@@ -1158,4 +1156,69 @@ func (x *Exec) resolveTypeExpr(e ast.Expr, pkg *types.Package) types.Type {
 		return types.NewInterfaceType(nil, nil)
 	}
 	return nil
+}
+
+var sameNamedCache = map[*ssa.Function]map[string][]*ssa.Alloc{}
+var sameNamedMu sync.Mutex
+
+func sameNamedLocals(fn *ssa.Function, base string) []*ssa.Alloc {
+	sameNamedMu.Lock()
+	defer sameNamedMu.Unlock()
+	if m, ok := sameNamedCache[fn]; ok {
+		if l, ok := m[base]; ok {
+			return l
+		}
+	} else {
+		sameNamedCache[fn] = map[string][]*ssa.Alloc{}
+	}
+	type cand struct {
+		a   *ssa.Alloc
+		pos token.Pos
+		ord int
+	}
+	var cs []cand
+	ord := 0
+	for _, b := range fn.Blocks {
+		for _, ins := range b.Instrs {
+			if a, ok := ins.(*ssa.Alloc); ok && a.Comment == base {
+				p := a.Pos()
+				if !p.IsValid() {
+					if refs := a.Referrers(); refs != nil {
+						for _, r := range *refs {
+							if rp := r.Pos(); rp.IsValid() && (!p.IsValid() || rp < p) {
+								p = rp
+							}
+							// the value loaded from / stored to the cell may be the only positioned use
+							if v, ok := r.(ssa.Value); ok {
+								if vr := v.Referrers(); vr != nil {
+									for _, r2 := range *vr {
+										if rp := r2.Pos(); rp.IsValid() && (!p.IsValid() || rp < p) {
+											p = rp
+										}
+									}
+								}
+							}
+						}
+					}
+				}
+				cs = append(cs, cand{a, p, ord})
+				ord++
+			}
+		}
+	}
+	allPos := true
+	for _, c := range cs {
+		if !c.pos.IsValid() {
+			allPos = false
+		}
+	}
+	if allPos {
+		sort.SliceStable(cs, func(i, j int) bool { return cs[i].pos < cs[j].pos })
+	}
+	var out []*ssa.Alloc
+	for _, c := range cs {
+		out = append(out, c.a)
+	}
+	sameNamedCache[fn][base] = out
+	return out
 }
